@@ -8,6 +8,7 @@ import subprocess
 ROOT = os.path.dirname(os.path.dirname(os.path.abspath(__file__)))
 # subject prefix of the fix: commit -> (properties, what failed before the repair, how the checks showed it)
 FIXED = {
+    'fix: apply the merge entries of a batch (and of a recovered ': (['C16', 'C13'], 'a merge entry (type 3, accepted by the log; a single one is applied as a put by the replication applier) inside ApplyBatch / ApplyBatchInternal and at log replay was logged and acknowledged but never became visible', 'C16 walks with every entry type through EngineApplier and ApplyBatchInternal: apply_batch with a merge entry - store differs from the prediction (witness findings/W_C16_merge_entry_in_batch_not_applied.json)'),
     'fix: GetNodeInfo reports the engine\'s read-only status withou': (['C16'], 'a service without a replication manager answered GetNodeInfo with read_only=false while its engine (switched to read-only by the embedding program) refused every write', 'C16 generated walks over role x manager x mode states: node information after SetReadOnly on a standalone node (witness in findings/)'),
     'fix: refuse the commit of a read-write transaction once the': (['C16'], 'a read-write transaction begun before the engine was switched to read-only mode committed afterwards: Commit applies to the storage directly and never asked the flag - a client write landed on a read-only node', 'C16 script 22 / random walks with SetRO while transactions are open: commit accepted and data changed under read-only (witness in findings/)'),
     'fix: do not hold the primary\'s sessions lock while reading t': (['C15'], 'lock-order cycle on the primary: the catch-up read held the sessions lock (read) while taking the WAL lock, a writer holds the WAL lock while taking the sessions lock (read), and any pending registration/removal/acknowledgement (write lock) in between blocks the writer for ever', 'C15 churn scenario (full-rate writers while clients attach and reset): "primary put did not return within 5000 ms"; MC_ReplLocks negative configuration deadlocks in the same state; also hit by the C02 retention walks (1 hang in 13)'),
